@@ -1,6 +1,6 @@
 #!/bin/bash
 # try_mutant.sh <patch.diff> <PROP> [extra check args]: applies the change to /repo, runs the check, reverts.
-PATCH=$1; PROP=$2; shift 2
+PATCH=$(realpath $1); PROP=$2; shift 2
 cd /repo && (git apply "$PATCH" 2>/dev/null || git apply --3way "$PATCH" 2>/dev/null) || { git -C /repo reset -q --hard HEAD; git -C /repo clean -fdq; echo "patch does not apply"; exit 3; }
 if git -C /repo status --short | grep -q "^UU"; then git -C /repo reset -q --hard HEAD; git -C /repo clean -fdq; echo "patch conflicts"; exit 3; fi
 cd /verif && ./bin/check run $PROP "$@"; RC=$?
